@@ -424,6 +424,26 @@ def check_rt(c):
                          "%s: load_ds(chunks=%r) raised %s: %s" % (label, chunks, type(e).__name__, str(e)[:200]))], notes
             if bad:
                 return [(dict(key, what="lazy-" + bad[0], chunks=cfg["chunks"]), bad[1])], notes
+        # what a program does to the dataset it loaded (values overwritten in place) is not what the untouched file holds:
+        # a second load in the same process must again give what was saved
+        touched = False
+        for v_ in eager.data_vars:
+            try:
+                arr_ = eager[v_].values
+                if arr_.dtype.kind in "fciu" and arr_.size:
+                    arr_[...] = 0
+                    touched = True
+            except Exception:  # noqa  (read-only buffers: nothing was modified)
+                pass
+        if touched:
+            try:
+                again = xyz.load_ds(name, engine=eng)
+                opened.append(again)
+            except Exception as e:  # noqa
+                return [(dict(key, what="reload-raises"), "%s: a second load_ds raised %s: %s" % (label, type(e).__name__, str(e)[:200]))], notes
+            bad = compare_ds(orig, again, c["expect"], label + ", loaded a second time after the first loaded copy was overwritten in place")
+            if bad:
+                return [(dict(key, what="reload-" + bad[0]), bad[1])], notes
         return [], notes
     finally:
         for o in opened:
